@@ -111,7 +111,7 @@ Combine(vals, mode, tie) ==      \* vals: sequence of non-EMPTY child values
 RECURSIVE NodeVal(_, _, _, _)
 NodeVal(D, docs, d, q) ==
   CASE q.k = "term" -> IF q.sc THEN TermScore(D, docs, d, q) ELSE EMPTY
-    [] q.k \in {"prefix", "wild"} ->
+    [] q.k \in {"prefix", "wild", "regex"} ->
          \* an expansion that finds no term in the document's segment contributes no scorer at all
          \* (the property does not say whether "no term" scores 0 or is absent; the code drops it)
          IF q.sc /\ ExpansionTerms(D, SegDocs(docs, d.seg), q) # {} THEN ExpansionScore(D, docs, d, q) ELSE EMPTY
